@@ -18,6 +18,8 @@ structure CallInv (oa : Option Nat) (i : CallInfo) (cl : Call) : Prop where
   opened : ∀ t, oa = some t → cl.phase ≠ .waitOpen
   liveDue : ∀ due, cl.phase = .live (some due) → due = roundUp (cl.issueT + cl.T) ∧ 0 < cl.T
   liveNone : cl.phase = .live none → cl.T = 0
+  /-- TimeoutError is never set before t+T -/
+  tmo : ∀ t, (t, Outcome.timeout) ∈ cl.sets → 0 < cl.T ∧ cl.issueT + cl.T ≤ t
 
 /-- the specification's memory of the first completed outcome agrees with the call -/
 def FirstOK (i : CallInfo) (cl : Call) : Prop := i.first = (cl.sets.getLast?).map (·.2)
@@ -134,7 +136,7 @@ theorem note1_fields (i : CallInfo) (v : CallView) :
 theorem CallInv.congr {oa : Option Nat} {i i' : CallInfo} {cl : Call} (h : CallInv oa i cl)
     (hi : i'.cid = i.cid ∧ i'.issueT = i.issueT ∧ i'.T = i.T ∧ i'.preOpen = i.preOpen) : CallInv oa i' cl :=
   ⟨hi.1.trans h.cid, hi.2.1.trans h.issueT, hi.2.2.1.trans h.T, h.setsLe, h.overIff,
-    fun hp => by rw [hi.2.2.2]; exact h.waiting hp, h.opened, h.liveDue, h.liveNone⟩
+    fun hp => by rw [hi.2.2.2]; exact h.waiting hp, h.opened, h.liveDue, h.liveNone, h.tmo⟩
 
 /-- (A) a call the operation does not touch -/
 theorem step_same (oa oa' : Option Nat) (a' : Acc) (ha' : a'.openAt = oa') (idx c : Nat) (op : Op)
@@ -148,7 +150,7 @@ theorem step_same (oa oa' : Option Nat) (a' : Acc) (ha' : a'.openAt = oa') (idx 
     rcases hoa with h | ⟨h1, h2⟩
     · rw [h]; exact h0
     · exact ⟨h0.cid, h0.issueT, h0.T, h0.setsLe, h0.overIff, fun hp => absurd hp h2, fun _ _ => h2,
-        h0.liveDue, h0.liveNone⟩
+        h0.liveDue, h0.liveNone, h0.tmo⟩
   refine ⟨hinv', ?_, note1_first i' cl hinv.setsLe (Or.inr (by rw [hi.2.2.2.2]; exact hfirst))⟩
   rcases sets_cases cl hinv.setsLe with hs | ⟨t, o, hs⟩
   · apply spec_pending a' idx c op i' cl hs (by rw [hi.2.2.2.2, hfirst, hs]; rfl)
@@ -197,7 +199,7 @@ theorem step_dispatch (a' : Acc) (now : Nat) (ha' : a'.openAt = some now) (idx c
     rw [if_pos hT]
     have hinv' : CallInv (some now) i' { cl with phase := .live none, lowerGot := true } :=
       ⟨hi.1.trans hinv.cid, hi.2.1.trans hinv.issueT, hi.2.2.1.trans hinv.T, hinv.setsLe,
-        by simp [hs0], by simp, by simp, by simp, fun _ => hT⟩
+        by simp [hs0], by simp, by simp, by simp, fun _ => hT, by simp [hs0]⟩
     refine ⟨hinv', ?_, note1_first _ _ hinv.setsLe (Or.inl hf0)⟩
     apply spec_pending a' idx c op i' _ hs0 hf0
     intro h; rw [hi.2.2.1, hinv.T, hT] at h; omega
@@ -208,7 +210,8 @@ theorem step_dispatch (a' : Acc) (now : Nat) (ha' : a'.openAt = some now) (idx c
       have hs' : (cl.sets ++ [(now, Outcome.timeout)]) = [(now, Outcome.timeout)] := by rw [hs0]; rfl
       have hinv' : CallInv (some now) i' { cl with phase := .over .none, sets := cl.sets ++ [(now, .timeout)] } :=
         ⟨hi.1.trans hinv.cid, hi.2.1.trans hinv.issueT, hi.2.2.1.trans hinv.T, by simp [hs0],
-          by simp, by simp, by simp, by simp, by simp⟩
+          by simp, by simp, by simp, by simp, by simp,
+          by simp [hs0]; omega⟩
       refine ⟨hinv', ?_, note1_first _ _ (by simp [hs0]) (Or.inl hf0)⟩
       apply spec_done_new a' idx c op i' _ now .timeout hs' hf0
       · refine ⟨fun h => absurd rfl h, fun _ => Or.inr ⟨?_, ?_⟩⟩
@@ -221,7 +224,7 @@ theorem step_dispatch (a' : Acc) (now : Nat) (ha' : a'.openAt = some now) (idx c
       have hinv' : CallInv (some now) i'
           { cl with phase := .live (some (roundUp (cl.issueT + cl.T))), lowerGot := true } :=
         ⟨hi.1.trans hinv.cid, hi.2.1.trans hinv.issueT, hi.2.2.1.trans hinv.T, hinv.setsLe,
-          by simp [hs0], by simp, by simp, by simp; omega, by simp⟩
+          by simp [hs0], by simp, by simp, by simp; omega, by simp, by simp [hs0]⟩
       refine ⟨hinv', ?_, note1_first _ _ hinv.setsLe (Or.inl hf0)⟩
       apply spec_pending a' idx c op i' _ hs0 hf0
       intro _ hlate
@@ -236,6 +239,7 @@ theorem step_respond (oa : Option Nat) (a' : Acc) (ha' : a'.openAt = oa) (idx c 
     (i i' : CallInfo) (cl : Call) (hinv : CallInv oa i cl) (hfirst : FirstOK i cl)
     (hi : i'.cid = i.cid ∧ i'.issueT = i.issueT ∧ i'.T = i.T ∧ i'.preOpen = i.preOpen ∧ i'.first = i.first)
     (hpost : i'.posts.contains o = true) (hl : cl.lowerGot = true)
+    (henv : o = .timeout → 0 < cl.T ∧ cl.issueT + cl.T ≤ op.time)
     (hpunct : ∀ due, cl.phase = .live (some due) → op.time ≤ due) :
     CallInv oa i' (cl.respond op.time o) ∧
     Acceptable (specCall a' idx op c i' (viewOf (cl.respond op.time o))) ∧
@@ -263,7 +267,8 @@ theorem step_respond (oa : Option Nat) (a' : Acc) (ha' : a'.openAt = oa) (idx c 
     have hinv' : CallInv oa i'
         { cl with phase := .over (cancelEnd d op.time), sets := cl.sets ++ [(op.time, o)] } :=
       ⟨hi.1.trans hinv.cid, hi.2.1.trans hinv.issueT, hi.2.2.1.trans hinv.T, by simp [hs0],
-        by simp, by simp, by simp, by simp, by simp⟩
+        by simp, by simp, by simp, by simp, by simp,
+        by simp [hs0]; intro ho; exact henv ho.symm⟩
     refine ⟨hinv', ?_, note1_first _ _ (by simp [hs0]) (Or.inl hf0)⟩
     apply spec_done_new a' idx c op i' _ op.time o hs' hf0
     · exact ⟨fun _ => hpost, fun h => Or.inl (h ▸ hpost)⟩
@@ -299,7 +304,7 @@ theorem step_fire (oa : Option Nat) (a' : Acc) (ha' : a'.openAt = oa) (idx c : N
       -- nothing the specification looks at changes except the timer code
       have hinv' : CallInv oa i' { cl with evtSet := true, phase := .over .fired } :=
         ⟨hi.1.trans hinv.cid, hi.2.1.trans hinv.issueT, hi.2.2.1.trans hinv.T, hinv.setsLe,
-          by simp; exact (hinv.overIff).mp ⟨_, hp⟩, by simp, by simp, by simp, by simp⟩
+          by simp; exact (hinv.overIff).mp ⟨_, hp⟩, by simp, by simp, by simp, by simp, hinv.tmo⟩
       have hfirst' : FirstOK i ({ cl with evtSet := true, phase := .over .fired } : Call) := hfirst
       refine ⟨hinv', ?_, note1_first _ _ hinv.setsLe (Or.inr (by rw [hi.2.2.2.2]; exact hfirst))⟩
       have hne := (hinv.overIff).mp ⟨_, hp⟩
@@ -325,7 +330,9 @@ theorem step_fire (oa : Option Nat) (a' : Acc) (ha' : a'.openAt = oa) (idx c : N
       have hinv' : CallInv oa i'
           { cl with evtSet := true, phase := .over .fired, sets := cl.sets ++ [(op.time, .timeout)] } :=
         ⟨hi.1.trans hinv.cid, hi.2.1.trans hinv.issueT, hi.2.2.1.trans hinv.T, by simp [hs0],
-          by simp, by simp, by simp, by simp, by simp⟩
+          by simp, by simp, by simp, by simp, by simp,
+          by simp [hs0]
+             have := le_roundUp (cl.issueT + cl.T); exact ⟨hT, by omega⟩⟩
       refine ⟨hinv', ?_, note1_first _ _ (by simp [hs0]) (Or.inl hf0)⟩
       apply spec_done_new a' idx c op i' _ op.time .timeout hs' hf0
       · refine ⟨fun h => absurd rfl h, fun _ => Or.inr ⟨?_, ?_⟩⟩
